@@ -33,12 +33,7 @@ every crash point, every file. -/
 theorem no_key_at_any_crash_point_any_epochs (f : Flags) (rounds : List Bool) (n : Nat)
     (p : Path) (c : Content) (hc : fsAt (traceG .repaired f rounds) n p = some c) :
     c.keyBlank = true := by
-  refine fs_blank_of_all_blank _ (forall_mem_traceG _ f rounds ?_ ?_ ?_ ?_ ?_) n p c hc
-  · flag_cases f
-  · flag_cases f
-  · flag_cases f
-  · intro b; cases b <;> flag_cases f
-  · flag_cases f
+  exact fs_blank_of_all_blank _ (all_blank_traceG f rounds) n p c hc
 
 /-- The 1-epoch run the correspondence check executes. -/
 theorem no_key_at_any_crash_point (f : Flags) (n : Nat) (p : Path) (c : Content)
@@ -120,6 +115,100 @@ theorem repair_changes_only_key_bits (f : Flags) (rounds : List Bool)
   simp only [traceG, List.map_append, ← h1, ← h2, ← h3, ← h4, ← h5]
 
 example : runIdRaises .asIs ⟨.centroid, .npChunks, true, true, false, true⟩ = false := by decide
+
+/-! ## Two-run history: run 2 re-uses the chunks run 1 left (`use_existing_chunks = True`)
+
+`f1`/`r1` are the flags/epochs of run 1 (forced to the chunk framework with chunks kept:
+`run1Flags`), `f2`/`r2` those of run 2 (chunk framework: `f2.fw = .npChunks`), which gets the same
+`np_chunks_path` and a new `save_ckpt_path`.  Crash points *inside* run 1 are crash points of a
+fresh run (theorems above); the theorems below cover every crash point of run 2 and its exit. -/
+
+/-- **The key is never persisted**, two-run history: whatever run 1 was, at every crash point of
+run 2 no file in run 2's checkpoint directory or in the shared chunk directory holds the key. -/
+theorem no_key_at_any_crash_point_reuse (f1 : Flags) (r1 : List Bool) (f2 : Flags) (r2 : List Bool)
+    (n : Nat) (p : Path) (c : Content) (hc : fsReuseAt .repaired f1 r1 f2 r2 n p = some c) :
+    c.keyBlank = true := by
+  have h0 : (reuseStart .repaired f1 r1).Blank :=
+    carry_blank (fsFrom_blank _ FS.empty FS.blank_empty (all_blank_traceG (run1Flags f1) r1))
+  exact fsFrom_blank ((traceR .repaired f2 r2).take n) _ h0
+    (fun e he => all_blank_traceR f2 r2 e (List.mem_of_mem_take he)) p c hc
+
+example : fsReuseAt .repaired ⟨.centroid, .torchDataset, true, false, true, true⟩ [true]
+    ⟨.centroid, .npChunks, false, true, false, true⟩ [true] 4 .trainChunks = some .data := by decide
+
+/-- **Full artefacts** after run 2: as for a fresh run, and the chunk files run 1 left are gone
+iff run 2 requested their deletion (kept otherwise); run 1's chunks `config.yaml` stays. -/
+theorem artefacts_complete_reuse (f1 : Flags) (rs1 : List Bool) (f2 : Flags) (rs2 : List Bool)
+    (hfw : f2.fw = .npChunks) :
+    let fs := fsReuseAfter .repaired f1 (true :: rs1) f2 (true :: rs2)
+    fs .initialCfg = some (cfg .supplied true false) ∧
+    fs .trainingCfg = some (cfg .used true f2.wandb) ∧
+    fs .bestCkpt = (if f2.ckpt then some (cfg .used true false) else none) ∧
+    fs .lastCkpt = (if f2.ckpt then some (cfg .used true false) else none) ∧
+    fs .chunksCfg = some (cfg .prepared true false) ∧
+    fs .trainChunks = (if f2.deleteChunks then none else some .data) ∧
+    fs .valChunks = (if f2.deleteChunks then none else some .data) := by
+  simp only [fsReuseAfter]
+  rw [reuseStart_repaired, fsFrom_traceR_any_epochs]
+  rcases f2 with ⟨m, fw, w, c, s, d⟩
+  simp only at hfw; subst hfw
+  cases m <;> cases w <;> cases c <;> cases s <;> cases d <;> decide
+
+example : (⟨.bottomup, .npChunks, true, true, false, true⟩ : Flags).fw = .npChunks := rfl
+
+/-- **Run 2 completes** (repaired code). -/
+theorem train_total_reuse (f : Flags) (rounds : List Bool) :
+    ∀ e ∈ traceR .repaired f rounds, e.isRaise = false := by
+  refine forall_mem_traceR _ f rounds ?_ ?_ ?_ ?_ ?_
+  · decide
+  · flag_cases f
+  · intro h; simp [reuseRaises] at h
+  · intro b; cases b <;> flag_cases f
+  · flag_cases f
+
+/-! ### Finding F-C19c: bottom-up model + re-used chunks raises (tree with only F-C19/F-C19b repaired) -/
+
+/-- On fresh runs the `keyFixed` tree already behaves as demanded. -/
+theorem keyFixed_fresh_eq_repaired (f : Flags) (rounds : List Bool) :
+    traceG .keyFixed f rounds = traceG .repaired f rounds := rfl
+
+/-- Full statement "run 2 completes" for the `keyFixed` tree (false). -/
+def KeyFixedReuseTotal : Prop :=
+  ∀ (f : Flags) (rounds : List Bool), ∀ e ∈ traceR .keyFixed f rounds, e.isRaise = false
+
+/-- F-C19c: a bottom-up run with `use_existing_chunks = True` raises while building its datasets —
+after three config writes, before any training; nothing is cleaned up. -/
+theorem reuse_bottomup_raises_counterexample : ¬ KeyFixedReuseTotal := by
+  intro h
+  exact absurd (h ⟨.bottomup, .npChunks, false, true, false, true⟩ [true] .raise (by decide)) (by decide)
+
+/-- Every other model type: run 2 of the `keyFixed` tree is exactly the repaired run 2. -/
+theorem keyFixed_reuse_partial (f : Flags) (rounds : List Bool) (h : f.model ≠ .bottomup) :
+    traceR .keyFixed f rounds = traceR .repaired f rounds := by
+  have : reuseRaises .keyFixed f = false := by
+    rcases f with ⟨m, fw, w, c, s, d⟩
+    cases m <;> simp_all [reuseRaises]
+  have hrep : reuseRaises .repaired f = false := rfl
+  unfold traceR
+  rw [this, hrep]
+  rfl
+
+example : (⟨.centroid, .npChunks, true, true, false, true⟩ : Flags).model ≠ .bottomup := by decide
+
+/-- Even the failing run leaks nothing: the `keyFixed` tree never persists the key in run 2 either. -/
+theorem keyFixed_reuse_no_key (f1 : Flags) (r1 : List Bool) (f2 : Flags) (r2 : List Bool)
+    (n : Nat) (p : Path) (c : Content) (hc : fsReuseAt .keyFixed f1 r1 f2 r2 n p = some c) :
+    c.keyBlank = true := by
+  have h0 : (reuseStart .keyFixed f1 r1).Blank :=
+    carry_blank (fsFrom_blank _ FS.empty FS.blank_empty (all_blank_traceG (run1Flags f1) r1))
+  refine fsFrom_blank ((traceR .keyFixed f2 r2).take n) _ h0 (fun e he => ?_) p c hc
+  refine forall_mem_traceR (P := fun e => e.blank = true) .keyFixed f2 r2 ?_ ?_ ?_ ?_ ?_ e
+    (List.mem_of_mem_take he)
+  · decide
+  · flag_cases f2
+  · intro _; rfl
+  · intro b; cases b <;> flag_cases f2
+  · flag_cases f2
 
 /-! ## The pinned tree (as is): the property is false — findings F-C19 / F-C19b -/
 
